@@ -103,6 +103,60 @@ def named_model(chk=None):
     return twin, doc, table
 
 
+TWIN_V = r"""(* generated by lib/props/c17.py: the metamodel the vectors are judged against (Gen.MMData, translated from the named twin) IS the
+   metamodel of the model file (Gen.C17Orig) with typeNames filled in — kernel-checked, so LSP.Naming applies to this run *)
+From LSP Require Import Base MM ValidB Strict Naming.
+Require Gen.MMData Gen.C17Orig.
+Open Scope string_scope.
+Definition twin := MMData.mm.
+Definition orig := C17Orig.mm.
+Lemma twin_is_retabled : twin = retable orig (requests twin) (notifications twin).
+Proof. vm_compute. reflexivity. Qed.
+Lemma twin_entries_differ_in_typeName_only :
+  map (fun r => name_request r None) (requests twin) = map (fun r => name_request r None) (requests orig)
+  /\ map (fun n => name_notification n None) (notifications twin) = map (fun n => name_notification n None) (notifications orig).
+Proof. split; vm_compute; reflexivity. Qed.
+Lemma orig_wf : mm_wf orig = true.
+Proof. vm_compute. reflexivity. Qed.
+Theorem twin_same_validity : forall t j, valid orig t j <-> valid twin t j.
+Proof. intros t j. rewrite twin_is_retabled. apply valid_retable. exact orig_wf. Qed.
+Theorem twin_same_message_validity : forall k tn j, msg_valid orig k j <-> msg_valid twin (name_msg k tn) j.
+Proof. intros k tn j. rewrite twin_is_retabled. apply msg_valid_named. exact orig_wf. Qed.
+Print Assumptions twin_is_retabled.
+Print Assumptions twin_entries_differ_in_typeName_only.
+Print Assumptions twin_same_validity.
+Print Assumptions twin_same_message_validity.
+"""
+
+
+def twin_lemmas(chk):
+    """evolved models with un-named messages only: translate the model file itself as well (Gen/C17Orig.v) and check, in the kernel, that the
+    named twin differs from it in typeNames only, so that LSP.Naming.msg_valid_named applies (validity judged against the twin = validity
+    under the model file)."""
+    failed = []
+    orig_v = os.path.join(V.GEN, "C17Orig.v")
+    p = V.run_py("x_mm.py", [os.path.join(V.REPO, "generator", "lsp.json"), orig_v])
+    if p.returncode != 0:
+        chk.obligation("translate:x_mm(orig)", False, (p.stdout + p.stderr)[-300:])
+        return [("translator", "x_mm", (p.stdout + p.stderr)[-1500:])]
+    with V.build_lock():
+        V.ensure_theory()
+        r = V.coqc(orig_v)
+        if not r.ok:
+            return [("coqc", "C17Orig.v", r.text[-1500:])]
+        f = os.path.join(V.PROPS_OUT, "C17Twin.v")
+        V.write_if_changed(f, TWIN_V)
+        r = V.coqc(f)
+    names = V.theorems_in(f)
+    for n in names:
+        chk.obligation("C17Twin." + n, r.ok, "" if r.ok else r.text[-300:])
+    if not r.ok:
+        failed.append(("proof", "C17Twin.v", r.text[-1500:]))
+    elif V.parse_assumptions(r.text).get("axioms"):
+        failed.append(("proof", "axioms", str(V.parse_assumptions(r.text)["axioms"])[:1500]))
+    return failed
+
+
 def build(chk, model_path=None):
     """x_mm + MMData.v + props/C17.v. Returns (mmdata_ok, failed list)."""
     failed = []
@@ -229,6 +283,8 @@ def run(chk):
         t0 = time.time()
         mm_ok, failed = build(chk, model_path)
         timings["build_s"] = round(time.time() - t0, 1)
+    if naming is not None and mm_ok:
+        failed += twin_lemmas(chk)
     try:
         run_judged(chk, t_start, timings, mm_ok, failed, model_doc, model_path if naming is not None else None)
     finally:
